@@ -7,6 +7,8 @@ Sections (model driver vs. the real code on the same input, plus an oracle that 
   open     – serialize_open_flags        stat – serialize_stat_flags
   traces   – str(trace) of decoders that use them (events through TracesParser.feed_generator)
   ioctl    – str(BscIoctl) on structured request words; ioctl-trace – the same through BSC_ioctl events
+  decoders-history – neighbour windows of every decoder that shows a word symbolically, rendered back to back: the text of
+             a window must not depend on what the interpreter rendered before (tools/kdv/neighbours.py)
 
 The oracle's reference is the dicts below: Darwin's constants, copied into this module by hand (the same
 published header values as lean/KdVerif/Spec/Darwin.lean, but held here so that the failing-input search
@@ -417,13 +419,14 @@ class RendersDifferently(Exception):
     pass
 
 
-def run_trace(name, paired, start, end=(0, 5, 0, 0), tid=0x1234):
-    """Feed one START/END window (or one unpaired record) of the named trace point; returns str(trace)."""
+def run_trace(name, paired, start, end=(0, 5, 0, 0), tid=0x1234, parser=None):
+    """Feed one START/END window (or one unpaired record) of the named trace point; returns str(trace).  `parser`: a
+    TracesParser that already decoded other windows (a dump is decoded by ONE parser); default a new one."""
     t = trace_env()
     eid = t['inv'][name]
     mk = lambda ts, args, q: t['from_kd_buf'](t['record_args'](ts, list(args), tid, eid | q))  # noqa: E731
     evs = [mk(10, start, 1), mk(20, end, 2)] if paired else [mk(10, start, 0)]
-    objs = list(t['TracesParser'](t['codes'], {}, {}).feed_generator(evs))
+    objs = list((parser or t['TracesParser'](t['codes'], {}, {})).feed_generator(evs))
     out = [str(x) for x in objs]
     if len(out) != 1:
         raise ValueError('expected one trace, got %d' % len(out))
@@ -501,10 +504,20 @@ TRACE_FAMILY = {'open': None, 'fchmod': None, 'access': 'access', 'recvfrom': 'm
                 'stk-uhdr': 'callstack', 'dlopen': 'rtld'}
 
 
-def impl_trace(case):
+_shared_parsers = {}
+
+
+def shared_parser(name):
+    if name not in _shared_parsers:
+        t = trace_env()
+        _shared_parsers[name] = t['TracesParser'](t['codes'], {}, {})
+    return _shared_parsers[name]
+
+
+def impl_trace(case, shared=False):
     key, v = case
     name, paired, build, _, rx, _, _ = TRACES[key]
-    text = run_trace(name, paired, build(v))
+    text = run_trace(name, paired, build(v), parser=shared_parser(name) if shared else None)
     m = re.match(rx, text, flags=re.S)
     if not m:
         return 'unparsable ' + core.hs(text)
@@ -633,6 +646,20 @@ def correspondence(rep, rng, tier):
                      'TracesParser.feed_generator; the names are cut out of the text and compared with the model of '
                      'the helper on the argument word the handler passes')
 
+    # the same trace points, all windows of a trace point through ONE parser, each word between two renderings of a neighbour
+    scases = []
+    for key in TRACES:
+        ws = [v for k, v in tcases if k == key]
+        for v in (ws if tier != 'quick' else rng.sample(ws, min(len(ws), 50))):
+            v2 = v ^ (1 << rng.choice((0, 1, 3, 7, 8, 9, 16, 32, 40, 63)))
+            scases += [[key, v2], [key, v], [key, v2]]
+    _shared_parsers.clear()
+    run_section(rep, 'traces-one-parser', scases, line_fn=trace_line, impl_fn=lambda c: impl_trace(c, shared=True),
+                oracle_fn=trace_oracle, nontrivial_fn=ok_nonempty, kind_fn=lambda c, got: c[0],
+                rule='the trace points of `traces`, every window of a trace point fed to ONE TracesParser (as the windows of a dump '
+                     'are), each word between two renderings of a one-bit neighbour (bit 0, 1, 3, 7, 8, 9, 16, 32, 40 or 63 '
+                     'flipped); same oracle as `traces`: the names shown are those of the bits of the window\'s own word')
+
     # ioctl request words
     kind = lambda c, got: 'dir%d%s' % (c[0], '-len>=4096' if c[1] >= 4096 else '')  # noqa: E731
     for chunk in chunks(itertools.chain(ioctl_cases(rng, tier), ioctl_extra(rng, 2000 if tier == 'quick' else 50000)),
@@ -648,6 +675,10 @@ def correspondence(rep, rng, tier):
                 oracle_fn=lambda c, got: oracle_ioctl(c, got, 'trace-ioctl'),
                 nontrivial_fn=lambda c, got: got.startswith('ok '), kind_fn=kind,
                 rule='the same through BSC_ioctl START/END events and TracesParser.feed_generator')
+    # the names shown are a function of the word: neighbour windows rendered back to back, for every decoder that shows a
+    # word symbolically (tools/kdv/neighbours.py; oracle: same text as first thing in a fresh interpreter)
+    from .. import neighbours
+    neighbours.history_section(rep, rng, tier, 'decoders-history', select='symbolic')
     # a broken `ioctl` section appears once per chunk: keep one entry
     seen, uniq = set(), []
     for b in rep.broken:
@@ -668,6 +699,13 @@ def replay(path):
         return 1
     rp = r['replay']
     sec, case = rp['section'], rp['case']
+    if sec.startswith('decoders-history'):
+        from .. import neighbours
+        bad, lines = neighbours.replay(rp)
+        print('\n'.join(lines))
+        if bad:
+            print(f'VIOLATION property=C11 replay={path}')
+        return 1 if bad else 0
     if sec == 'helpers':
         got, line = call_helper(case[0], case[1]), f'flags {HELPERS[case[0]][1]} {case[1]}'
         res = oracle_family(HELPERS[case[0]][2], case[1], got, case[0])
@@ -677,7 +715,7 @@ def replay(path):
     elif sec == 'stat':
         got, line = show([m.name for m in mods()['bsd'].serialize_stat_flags(case)]), f'statflags {case}'
         res = oracle_stat(case, got)
-    elif sec == 'traces':
+    elif sec in ('traces', 'traces-one-parser'):
         try:
             got = impl_trace(case)
         except Exception as e:
